@@ -159,7 +159,7 @@ func (c rendererContext) RenderFile(filename string, b map[string]any) (string, 
 	// a path through a regular file (ENOTDIR) or one that is too long for the file system names no file either
 	if err != nil && (os.IsNotExist(err) || errors.Is(err, syscall.ENOTDIR) || errors.Is(err, syscall.ENAMETOOLONG)) {
 		// Is it cached?
-		if cval, ok := c.ctx.config.Cache[filename]; ok {
+		if cval, ok := c.ctx.config.cachedSource(filename); ok {
 			source = cval
 		} else {
 			return "", err
